@@ -8,6 +8,29 @@ import suite as S
 STATS = {}
 
 
+def merit_divergence(o, m):
+    """(field, implementation, model) of the first evaluation of a `merit` line the model does not reproduce, or None"""
+    if "bad-op" in m:
+        bad = [e for e in o["evals"] if "unreadable" in e]
+        return ("merit-record", bad[0]["unreadable"] if bad else None, m["bad-op"])
+    k = m.get("first_bad")
+    if k is None:
+        return None
+    e = o["evals"][k]
+    inputs = {key: e.get(key) for key in ("res", "tar", "tol", "weight", "active", "zim", "scalar")}
+    model = m.get("first_bad_model") or {}
+    if m.get("resid_ok") is False and not e.get("scalar"):
+        return ("merit-residuals", {"returned": e.get("out"), "evaluation": k, "inputs": inputs},
+                {"MeritNum.residuals of the recorded inputs (current tol / weight / active of the targets)": model.get("model_residuals")})
+    if m.get("within_ok") is False:
+        return ("merit-last_point_within_tol", {"last_point_within_tol": e.get("within"), "evaluation": k, "inputs": inputs},
+                {"MeritNum.lastWithin of the recorded inputs": model.get("model_within")})
+    if m.get("pen_ok") is False:
+        return ("merit-penalty", {"returned": e.get("out"), "evaluation": k, "inputs": inputs},
+                {"MeritNum.penalty2 of the recorded inputs": model.get("model_penalty2")})
+    return None
+
+
 def correspond(prop, prefixes):
     diffs, n = [], 0
     STATS.clear()
@@ -16,6 +39,15 @@ def correspond(prop, prefixes):
         ops = S.load_lines(pref + ".ops.jsonl")
         mod = S.load_lines(pref + ".model.jsonl")
         for o, m in zip(ops, mod):
+            if o.get("op") == "merit":
+                # the residual computation of the merit function (XModel/MeritNum.lean) recomputed on doubles by the driver
+                # for every evaluation recorded during this API call, from the attributes the Target objects had then
+                STATS["merit_evaluations_recomputed"] = STATS.get("merit_evaluations_recomputed", 0) + m.get("n_evals", 0)
+                d = merit_divergence(o, m)
+                if d:
+                    diffs.append({"hist": o["hist"], "call": o["call"]["kind"], "field": d[0], "impl": d[1], "model": d[2],
+                                  "line": m.get("n")})
+                continue
             if o.get("op") != "call":
                 continue
             n += 1
